@@ -40,6 +40,9 @@ theorem C15_tables : tablesOK srcCfg = true ∧ srcCfg.look.continues = true := 
   · decide
   · rfl
 
+/-- the `%%` branch of `scan_from_with` advances `pos` by what `"%%%n"` consumed (commit 619a9b3), not by a constant -/
+theorem C15_pct_uses_n : srcCfg.pctUsesN = true := rfl
+
 /-- **C15 for String (T1).**  For every byte string `s` without NUL, every text `rest` that follows and every position counter:
     `String_Look` applied to what `String_Show` wrote for `s`, followed by `rest`, yields exactly `s`, leaves exactly `rest`
     unread, and advances the position by exactly the number of characters written. -/
@@ -82,7 +85,7 @@ theorem C15_int_roundtrip_ld (n : Int) (hn : -(2 ^ 63 : Int) ≤ n ∧ n < 2 ^ 6
 
 /-- **C15 for sequences (T1), String and File alike, every start position.**  Let `its` be any sequence of Strings, Ints
     (shown with `%$`, `%li` or `%ld`), Floats (`%$`, `%lf`) and separators inside the contract (`contractOK`: NUL-free strings,
-    64-bit integers, finite doubles, separators without `%`; a number is not followed by text that continues it; a separator
+    64-bit integers, finite doubles, separators — directive-free text or a literal `%%` —; a number is not followed by text that continues it; a separator
     read from a File that ends in white space is not followed by white space), written by `print_to_with` at the end of a sink
     holding any bytes `pre` (start position `pre.length`), and let any text `z` follow.  Then
     * the sink holds `pre` followed by exactly the concatenation of the items' texts and the writer returns the start
@@ -101,7 +104,7 @@ theorem C15_sequence_roundtrip (k : Kind) (pre : List Nat) (its : List Item) (z 
   intro text inp
   constructor
   · exact printItems_at_end srcCfg its { kind := k, data := pre }
-  · apply scanItems_text srcCfg (tables_of_ok _ C15_tables.1) C15_tables.2 k its z inp pre.length rfl hc
+  · apply scanItems_text srcCfg (tables_of_ok _ C15_tables.1) C15_tables.2 C15_pct_uses_n k its z inp pre.length rfl hc
     cases k <;> simp [inp, text, Input.view, List.append_assoc]
 
 /-- … and for sequences of Strings and Ints the values stored are exactly the values written -/
@@ -128,7 +131,7 @@ theorem C15_single_value (k : Kind) (pre : List Nat) (v : Val) (z : List Nat)
   intro text inp
   constructor
   · exact printItem_at_end srcCfg { kind := k, data := pre } (.shw v)
-  · apply scanItem_text srcCfg (tables_of_ok _ C15_tables.1) C15_tables.2 k (.shw v) z inp pre.length rfl hv hs
+  · apply scanItem_text srcCfg (tables_of_ok _ C15_tables.1) C15_tables.2 C15_pct_uses_n k (.shw v) z inp pre.length rfl hv hs
     cases k <;> simp [inp, text, Input.view, List.append_assoc]
 
 /-- facts about the two conversion-character sets, decided on the sets extracted from `scan_from_with` / `print_to_with`: both end
@@ -224,13 +227,22 @@ theorem C15_look_refuted_prefix :
 example : lookString srcCfg.look (showString srcCfg.showEsc srcCfg.showOpen srcCfg.showClose [10]) 0 = ([10], .ok ([], 4)) := by
   decide
 
-/-- **Known finding KF-C15-pct-advance, refuted statement**: `%%` inside a scanned sequence.  `print_to(s, 0, "%li%%%li", 1, 2)`
-    writes `1%2` (3 characters); `scan_from` of the same format from that String adds 2 to `pos` for the single `%`, reads the
-    second number at position 3 (the end) and throws FormatError; from a File it reads both numbers but returns position 4. -/
+/-- **The pre-fix `%%` branch (before 619a9b3, constant advance 2) is refuted**: `print_to(s, 0, "%li%%%li", 1, 2)` writes `1%2`
+    (3 characters); scanning the same format from that String added 2 to `pos` for the single `%`, read the second number at
+    position 3 (the end) and threw FormatError; from a File it read both numbers but returned position 4. -/
 theorem C15_pct_refuted :
-    scanItems srcCfg { kind := .str, text := [49, 37, 50], cur := 0 } 0 [.li, .pct, .li] = ([.int 1, .int 77], .raised .FormatError) ∧
-    scanItems srcCfg { kind := .file, text := [49, 37, 50], cur := 0 } 0 [.li, .pct, .li]
+    let old : Cfg := { srcCfg with pctUsesN := false, pctAdvance := 2 }
+    scanItems old { kind := .str, text := [49, 37, 50], cur := 0 } 0 [.li, .pct, .li] = ([.int 1, .int 77], .raised .FormatError) ∧
+    scanItems old { kind := .file, text := [49, 37, 50], cur := 0 } 0 [.li, .pct, .li]
       = ([.int 1, .int 2], .ok ({ kind := .file, text := [49, 37, 50], cur := 3 }, 4)) := by
+  constructor <;> decide
+
+/-- the same inputs with the scanner as it is now: both numbers, position 3, stream at 3 -/
+example :
+    scanItems srcCfg { kind := .str, text := [49, 37, 50], cur := 0 } 0 [.li, .pct, .li]
+      = ([.int 1, .int 2], .ok ({ kind := .str, text := [49, 37, 50], cur := 0 }, 3)) ∧
+    scanItems srcCfg { kind := .file, text := [49, 37, 50], cur := 0 } 0 [.li, .pct, .li]
+      = ([.int 1, .int 2], .ok ({ kind := .file, text := [49, 37, 50], cur := 3 }, 3)) := by
   constructor <;> decide
 
 /-- … and `1%2` is what the writer produces for that sequence -/
